@@ -55,6 +55,56 @@ def filephy(path, size):
         os.close(fd)
 
 
+# ----------------------------------------------------------------------------------------------------------------
+# MurmurHash3_x86_128 with a 16-byte seed, from the public description of the algorithm (independent of the tool):
+# with --test-force-murmur3 the harness knows the hash of every block without asking the tool
+def _rotl(x, r):
+    return ((x << r) | (x >> (32 - r))) & 0xFFFFFFFF
+
+
+def _fmix(h):
+    h ^= h >> 16; h = (h * 0x85ebca6b) & 0xFFFFFFFF
+    h ^= h >> 13; h = (h * 0xc2b2ae35) & 0xFFFFFFFF
+    h ^= h >> 16
+    return h
+
+
+def murmur3_128(data, seed):
+    M = 0xFFFFFFFF
+    c1, c2, c3, c4 = 0x239b961b, 0xab0e9789, 0x38b34ae5, 0xa1e38b93
+    h1, h2, h3, h4 = struct.unpack('<4I', seed)
+    n = len(data)
+    nb = n // 16
+    if nb:
+        for k1, k2, k3, k4 in struct.iter_unpack('<4I', data[:nb * 16]):
+            k1 = (k1 * c1) & M; k1 = _rotl(k1, 15); k1 = (k1 * c2) & M; h1 ^= k1
+            h1 = _rotl(h1, 19); h1 = (h1 + h2) & M; h1 = (h1 * 5 + 0x561ccd1b) & M
+            k2 = (k2 * c2) & M; k2 = _rotl(k2, 16); k2 = (k2 * c3) & M; h2 ^= k2
+            h2 = _rotl(h2, 17); h2 = (h2 + h3) & M; h2 = (h2 * 5 + 0x0bcaa747) & M
+            k3 = (k3 * c3) & M; k3 = _rotl(k3, 17); k3 = (k3 * c4) & M; h3 ^= k3
+            h3 = _rotl(h3, 15); h3 = (h3 + h4) & M; h3 = (h3 * 5 + 0x96cd1c35) & M
+            k4 = (k4 * c4) & M; k4 = _rotl(k4, 18); k4 = (k4 * c1) & M; h4 ^= k4
+            h4 = _rotl(h4, 13); h4 = (h4 + h1) & M; h4 = (h4 * 5 + 0x32ac3b17) & M
+    tail = data[nb * 16:]
+    r = len(tail)
+    if r:
+        k1, k2, k3, k4 = struct.unpack('<4I', tail + bytes(16 - r))
+        if r > 12:
+            k4 = (k4 * c4) & M; k4 = _rotl(k4, 18); k4 = (k4 * c1) & M; h4 ^= k4
+        if r > 8:
+            k3 = (k3 * c3) & M; k3 = _rotl(k3, 17); k3 = (k3 * c4) & M; h3 ^= k3
+        if r > 4:
+            k2 = (k2 * c2) & M; k2 = _rotl(k2, 16); k2 = (k2 * c3) & M; h2 ^= k2
+        k1 = (k1 * c1) & M; k1 = _rotl(k1, 15); k1 = (k1 * c2) & M; h1 ^= k1
+    h1 ^= n; h2 ^= n; h3 ^= n; h4 ^= n
+    h1 = (h1 + h2 + h3 + h4) & M
+    h2 = (h2 + h1) & M; h3 = (h3 + h1) & M; h4 = (h4 + h1) & M
+    h1, h2, h3, h4 = _fmix(h1), _fmix(h2), _fmix(h3), _fmix(h4)
+    h1 = (h1 + h2 + h3 + h4) & M
+    h2 = (h2 + h1) & M; h3 = (h3 + h1) & M; h4 = (h4 + h1) & M
+    return struct.pack('<4I', h1, h2, h3, h4)
+
+
 class Interner:
     def __init__(self):
         self.ids = {}
@@ -77,8 +127,10 @@ class Interner:
 class World:
     """one array + the options every command of this history is run with"""
 
-    def __init__(self, binary, shim, rng, nd=2, np_=1, order='alpha', fake_uuid=False, multi=False, where='tmpfs'):
+    def __init__(self, binary, shim, rng, nd=2, np_=1, order='alpha', fake_uuid=False, multi=False, where='tmpfs', murmur=False):
         self.rng = rng
+        self.murmur = murmur        # --test-force-murmur3: block hashes are computed by the harness itself
+        self.seed = None
         self.arr = Array(binary, nd=nd, np_=np_, shim=shim, root=mkscratch_on(where))
         self.order, self.fake_uuid, self.multi, self.where = order, fake_uuid, multi, where
         self.names = Interner()
@@ -97,6 +149,8 @@ class World:
             o.append('--test-fake-uuid')
         if not (self.multi if multi is None else multi):
             o.append('--test-skip-multi-scan')
+        if self.murmur:
+            o.append('--test-force-murmur3')
         return o
 
     def run(self, cmd, *opts, multi=None, shim_env=None):
@@ -110,7 +164,34 @@ class World:
     def content(self):
         if not os.path.exists(self.arr.content_files[0]):
             return None
-        return self.arr.content()
+        st = self.arr.content()
+        if self.murmur and st['hash'] == 'murmur3':
+            self.seed = st['seed']
+        return st
+
+    def block_hash(self, data):
+        """hash of the first len(data) bytes of a block, as recorded by the tool (needs the seed of the content file)"""
+        return murmur3_128(bytes(data), self.seed)
+
+    def hash_errors(self, st):
+        """independent oracle: the recorded hash of every BLK block is the hash of the bytes now on disk under that name
+        (files whose size/time-stamp no longer match the record are skipped); returns a list of error strings"""
+        if not (self.murmur and self.seed and st):
+            return []
+        bs, errs = self.arr.bs, []
+        for d, dd in st['disks'].items():
+            for f in dd['files']:
+                q = self.p(d, f['sub'].decode('latin1'))
+                if not (os.path.isfile(q) and not os.path.islink(q)):
+                    continue
+                s = os.lstat(q)
+                if s.st_size != f['size'] or s.st_mtime_ns // 10**9 != f['sec'] or (f['nsec'] >= 0 and s.st_mtime_ns % 10**9 != f['nsec']):
+                    continue
+                data = open(q, 'rb').read()
+                for i, (state, pos, h) in enumerate(f['blocks']):
+                    if state == 'BLK' and self.block_hash(data[i * bs:(i + 1) * bs]) != h:
+                        errs.append('%s:%s block %d (position %d) is recorded BLK with a hash that is not the hash of its data' % (d, f['sub'].decode('latin1'), i, pos))
+        return errs
 
     def inodes_usable(self, st, disk):
         """has_past_inodes of scan.c for this disk in the NEXT command: the recorded UUID equals the current one and is
@@ -173,6 +254,10 @@ class World:
             if self.isfile(o[1], o[2]):
                 os.unlink(self.p(o[1], o[2]))
                 done = self.write(o[1], o[2], rng.randbytes(o[3]))
+        elif k == 'reuse':                     # delete one file, create another one: the new file may get the freed inode
+            if self.isfile(o[1], o[2]) and o[2] != o[3]:
+                os.unlink(self.p(o[1], o[2]))
+                done = self.write(o[1], o[3], rng.randbytes(o[4]))
         elif k == 'rewrite':                   # same size, new content, new mtime
             if self.isfile(o[1], o[2]):
                 n = os.path.getsize(self.p(o[1], o[2]))
@@ -245,6 +330,21 @@ class World:
         if done:
             self.log.append(list(o))
         return done
+
+    def sync_store(self):
+        """every regular file present is a known version (covers the other names of a hard-linked inode)"""
+        for d in self.arr.disks:
+            base = os.path.join(self.arr.root, d)
+            for root, dn, fn in os.walk(base):
+                for n in fn:
+                    q = os.path.join(root, n)
+                    if os.path.islink(q) or not os.path.isfile(q):
+                        continue
+                    st = os.lstat(q)
+                    if st.st_nlink > 1:
+                        sub = os.path.relpath(q, base)
+                        if not any(len(b) == st.st_size and m == st.st_mtime_ns for b, m in self.arr.store.get((d, sub), [])):
+                            self.arr.note_version(d, sub)
 
     # ------------------------------------------------------------------------------------------ ground truth
     def truth(self):
@@ -409,6 +509,12 @@ class World:
                         continue
                     data = open(q, 'rb').read()
                     ids = [self.bid(data[k:k + bs]) for k in range(0, len(data), bs)]
+                    if self.murmur and self.seed:
+                        for k in range(0, len(data), bs):
+                            blk = data[k:k + bs]
+                            key = (self.bid(blk), len(blk))
+                            if key not in self.hash_known:
+                                self.hash_known[key] = self.hval(self.block_hash(blk))
                     files.append([str(self.names.id(os.path.relpath(q, base))), str(len(data)), str(st.st_mtime_ns // 10**9), str(st.st_mtime_ns % 10**9),
                                   str(st.st_ino), str(len(ids))] + list(map(str, ids)))
             toks += ['X', str(len(files))]
@@ -419,7 +525,7 @@ class World:
     def learn_hashes(self, st, only_blk=False):
         """a content file tells the hash of every BLK block (and of REP blocks, which however may be inherited, i.e. NOT the
         hash of the data under that name: those are learnt only from the file the hashes were verified for)"""
-        if st is None:
+        if st is None or (self.murmur and self.seed):
             return
         bs = self.arr.bs
         for dname, d in st['disks'].items():
